@@ -160,7 +160,7 @@ class Schedules(Suite):
             return ("cancel-notification-count", f"{len(cancels)} cancelled notifications written, outcome {o['outcome']}", {"count": want})
         if cancels and sent is not None and (cancels[0].get("params") or {}).get("requestId") != sent:
             return ("cancel-notification-id", f"cancelled notification names {cancels[0].get('params')}", {"requestId": sent})
-        if cancels and sent is None and case.get("id") is not None and (cancels[0].get("params") or {}).get("requestId") != H._idval(case["id"], {}):
+        if cancels and sent is None and case.get("id") is not None and H._idval(case["id"], {}) and (cancels[0].get("params") or {}).get("requestId") != H._idval(case["id"], {}):
             return ("cancel-notification-id", f"cancelled notification names {cancels[0].get('params')}", {"requestId": case["id"]})
         # progress exactness
         tok = o.get("tok")
